@@ -348,7 +348,6 @@ func MetaDataKVHandler(resHolder *SearchResult, attrGetter AttributeGetter, addi
 	var n uint16
 	var more bool
 	var id, dbVal, primDBVal []byte
-	var wasPrimMatch bool
 	var dbValInt signed256.Int
 	fltVals := make([]signed256.Int, len(fs))
 	fltValReady := make([]bool, len(fs))
@@ -400,12 +399,18 @@ func MetaDataKVHandler(resHolder *SearchResult, attrGetter AttributeGetter, addi
 					matches = matchValues(checkedDBVal, mch, fltVal)
 				}
 				if !matches {
-					if mch != object.MatchStringNotEqual && (wasPrimMatch || mch != object.MatchNumGT) {
+					// Keys come in ascending order: only a failed upper bound, or a
+					// failed filter the iteration is positioned by (the 1st one), means
+					// that no further key can match.
+					switch mch {
+					case object.MatchNumLT, object.MatchNumLE:
 						return false
+					case object.MatchStringEqual, object.MatchCommonPrefix:
+						return i != 0
+					default:
+						return true
 					}
-					return true
 				}
-				wasPrimMatch = true
 				// TODO: attribute value can be requested, it can be collected here, or we can
 				//  detect earlier when an object goes beyond the already collected result. The
 				//  code can become even more complex. Same below
